@@ -50,6 +50,7 @@ type memAPI struct {
 	writes     int
 	onWrite    func(api *memAPI, hash string, obj interface{})
 	gated      bool // reads go through vx.Gate (schedule replay of fetch completion orders)
+	dag        *memDag
 }
 
 func newMemAPI() *memAPI {
@@ -407,3 +408,66 @@ func payloads(es []iface.IPFSLogEntry) string {
 }
 
 var _ = entry.NewLamportClock
+
+// ---- DAG service of the in-memory store: what the real codecs (io/cbor, io/pb) write to and read from ----
+
+type memDag struct {
+	api   *memAPI
+	nodes map[string]format.Node
+	// fault injection for block writes
+	failAdds map[int]bool // the n-th Add (1-based) fails
+	adds     int
+	onAdd    func(d *memDag, nd format.Node)
+	journal  []string // identifiers in write order
+}
+
+func (api *memAPI) Dag() coreiface.APIDagService {
+	if api.dag == nil {
+		api.dag = &memDag{api: api, nodes: map[string]format.Node{}, failAdds: map[int]bool{}}
+	}
+	return api.dag
+}
+
+func (d *memDag) Add(_ context.Context, nd format.Node) (err error) {
+	vx.Atomic(func() {
+		d.adds++
+		if d.failAdds[d.adds] {
+			err = errors.New("blockstore: write failed")
+			return
+		}
+		if d.onAdd != nil {
+			d.onAdd(d, nd)
+		}
+		k := nd.Cid().String()
+		if _, dup := d.nodes[k]; !dup {
+			d.journal = append(d.journal, k)
+		}
+		d.nodes[k] = nd
+	})
+	return err
+}
+
+func (d *memDag) Get(_ context.Context, c cid.Cid) (nd format.Node, err error) {
+	vx.Atomic(func() {
+		n, ok := d.nodes[c.String()]
+		if !ok {
+			err = errors.New("ipld: could not find node")
+			return
+		}
+		nd = n
+	})
+	return nd, err
+}
+
+func (d *memDag) AddMany(c context.Context, nds []format.Node) error {
+	for _, n := range nds {
+		if err := d.Add(c, n); err != nil {
+			return err
+		}
+	}
+	return nil
+}
+func (d *memDag) GetMany(context.Context, []cid.Cid) <-chan *format.NodeOption { return nil }
+func (d *memDag) Remove(context.Context, cid.Cid) error                        { return nil }
+func (d *memDag) RemoveMany(context.Context, []cid.Cid) error                  { return nil }
+func (d *memDag) Pinning() format.NodeAdder                                    { return d }
